@@ -64,6 +64,7 @@ def cv_case(draw, tier, estimators=("Lin", "Proba"), fdrs=(0.31,), weak=False):
 ESTIMATORS = {
     "Lin": recorder.Lin,
     "Cubic": recorder.Cubic,
+    "LinTied": recorder.LinTied,
     "LinBoth": recorder.LinBoth,
     "Proba": recorder.Proba,
     "Proba1": recorder.Proba1,
